@@ -280,6 +280,13 @@ int main(int argc, char ** argv)
                 else if (!strcmp(op, "vmdel")) { sscanf(head, "%*s %ld", &a); if (V[a]) vm_delete(V[a]); V[a] = NULL; }
                 else if (!strcmp(op, "del")) { sscanf(head, "%*s %ld", &a); if (P[a]) program_delete(P[a]); P[a] = NULL; }
                 if (strlen(trace) < sizeof trace - 40) sprintf(trace + strlen(trace), " %s=%d", op, rc);
+                if ((!strcmp(op, "exec") || !strcmp(op, "compile")) && strlen(trace) < sizeof trace - 80)
+                {
+                    /* whose message array grew: diagnostics belong to the program that was compiled / executed */
+                    int q; char * t = trace + strlen(trace);
+                    t += sprintf(t, " m%ld=", a);
+                    for (q = 0; q < SLOTS && q < 4; q++) t += sprintf(t, "%s%d", q ? "," : "", P[q] ? (int)P[q]->msg_count : -1);
+                }
             }
             if (skip) continue;
             for (k = 0; k < SLOTS; k++) { if (V[k]) vm_delete(V[k]); if (P[k]) program_delete(P[k]); }
